@@ -63,6 +63,47 @@ func play(c Case, skipDry bool, v *ev.Verdict) (executed [][]string, fail *ev.Ve
 		id := live[op.T%len(live)]
 		label := m.Label(id)
 		where := fmt.Sprintf("op %d (build %s dry=%v always=%v fail=%v)", n, label, op.Dry, op.Always, op.Fail)
+		if op.Kind == "build" && op.Index && skipDry {
+			// the history without its dry runs: just the ordinary build
+			res := sim.Build(projsim.BuildReq{Label: label})
+			if res.Panic != "" {
+				f := ev.Failf("panic", "%s: panic: %s", where, res.Panic)
+				return nil, &f
+			}
+			ex := res.Executed()
+			sort.Strings(ex)
+			executed = append(executed, ex)
+			continue
+		}
+		if op.Kind == "build" && op.Index {
+			// One loaded Project (the REPL's run()): a dry run and then an ordinary build, without a reload
+			// in between, against an ordinary build of a full copy: the same bodies execute.
+			twin, err := sim.CloneFull()
+			if err != nil {
+				return nil, &ev.Verdict{Skip: "clone"}
+			}
+			want := twin.Build(projsim.BuildReq{Label: label})
+			twin.Close()
+			got := sim.Build(projsim.BuildReq{Label: label, DryRun: true, Always: op.Always, Steps: []projsim.Step{{Kind: "run", Real: true}}})
+			if got.Panic != "" {
+				f := ev.Failf("panic", "%s: panic: %s", where, got.Panic)
+				return nil, &f
+			}
+			if got.LoadErr == "" && want.LoadErr == "" {
+				a, b := got.Executed(), want.Executed()
+				sort.Strings(a)
+				sort.Strings(b)
+				if strings.Join(a, " ") != strings.Join(b, " ") {
+					f := ev.Failf("dry-run-changes-next-build", "%s: on one loaded project a dry run (always=%v) followed by an ordinary build executes %v; the ordinary build alone executes %v", where, op.Always, a, b)
+					return nil, &f
+				}
+				v.Classes = append(v.Classes, "dry-then-real-on-one-project")
+			}
+			ex := got.Executed()
+			sort.Strings(ex)
+			executed = append(executed, ex)
+			continue
+		}
 		if op.Dry && skipDry {
 			continue
 		}
@@ -246,7 +287,12 @@ func gen(t *rapid.T) Case {
 			b.Dry = true
 			ops = append(ops, b)
 		default:
-			ops = append(ops, projsim.GenBuild(t, true, false, false))
+			b := projsim.GenBuild(t, true, false, false)
+			if rapid.IntRange(0, 4).Draw(t, "oneproject") == 4 {
+				// a dry run and an ordinary build on one loaded project
+				b = projsim.Op{Kind: "build", T: b.T, Always: rapid.Bool().Draw(t, "dryalways"), Index: true}
+			}
+			ops = append(ops, b)
 		}
 	}
 	if rapid.IntRange(0, 3).Draw(t, "pattern") == 3 {
